@@ -346,12 +346,30 @@ func (ts *TermStore) BVBin(op string, a, b *Term) *Term {
 		if a.IsConst() { // canonical: const on the right
 			a, b = b, a
 		}
+		// (x + c1) + c2 = x + (c1 + c2)   (modulo 2^w, always valid)
+		if b.IsConst() {
+			if x, c1, ok := addConst(a); ok && c1 != 0 {
+				return ts.BVBin("bvadd", x, ts.BV(c1+b.cval, w))
+			}
+		}
 	case "bvsub":
 		if b.IsConst() && b.cval == 0 {
 			return a
 		}
 		if a == b {
 			return ts.BV(0, w)
+		}
+		// offsets from a common base cancel (modulo 2^w, always valid):
+		// (x + c1) - (x + c2) = c1 - c2 ; (x + c1) - c2 = x + (c1 - c2)
+		{
+			xa, ca, _ := addConst(a)
+			xb, cb, _ := addConst(b)
+			if xa == xb && !b.IsConst() {
+				return ts.BV(ca-cb, w)
+			}
+			if b.IsConst() && ca != 0 {
+				return ts.BVBin("bvadd", xa, ts.BV(ca-b.cval, w))
+			}
 		}
 	case "bvmul":
 		if a.IsConst() && a.cval == 1 {
@@ -392,6 +410,15 @@ func (ts *TermStore) BVBin(op string, a, b *Term) *Term {
 		}
 	}
 	return ts.mk(op, a.sort, 0, "", 0, 0, a, b)
+}
+
+// addConst splits x + c (canonical form: constant on the right) into (x, c);
+// any other term t is (t, 0).
+func addConst(t *Term) (*Term, uint64, bool) {
+	if t.op == "bvadd" && len(t.args) == 2 && t.args[1].IsConst() {
+		return t.args[0], t.args[1].cval, true
+	}
+	return t, 0, true
 }
 
 // BVCmp builds a bit-vector comparison (bvult, bvule, bvslt, bvsle ...).
